@@ -155,6 +155,29 @@ def search(ctx):
         p = BezierPath.fromSegments(segs)
         if abs(p.length - sum(s.length for s in segs)) > 1e-9 * max(1, p.length):
             fails.append({'class': 'C04-path', 'what': 'path length is not the sum of its segments', 'input': {'path': [gen.seg_json(s) for s in segs]}, 'observed': p.length, 'expected': sum(s.length for s in segs)})
+    # rigid motions through the PATH's own mutating API, on paths whose neighbouring segments share their node as one Point object (directly, or because
+    # addExtremes / splitAtPoints left them so): length is unchanged by translate / rotate and multiplied by |k| by scale
+    for _ in range(ctx.n(30, 500)):
+        segs = gen.shared_node_path(rng, ints=rng.random() < 0.3)
+        p = BezierPath.fromSegments(segs); p.closed = segs[-1].end is segs[0].start
+        if rng.random() < 0.5:
+            try: p.addExtremes()
+            except Exception: pass
+        L0 = p.length
+        if not (L0 == L0) or L0 <= 0: continue
+        op = rng.choice(['translate', 'rotate', 'scale'])
+        try:
+            if op == 'translate': p.translate(P(rng.uniform(-500, 500), rng.uniform(-500, 500))); want = L0
+            elif op == 'rotate': p.rotate(P(rng.uniform(-100, 100), rng.uniform(-100, 100)), rng.uniform(-3.1, 3.1)); want = L0
+            else:
+                k = rng.choice([0.5, 2.0, -1.5, rng.uniform(0.2, 3)]); p.scale(k); want = abs(k) * L0
+            L1 = p.length
+        except Exception as e:
+            fails.append({'class': 'C04-path', 'what': f'path.{op} / length raised {type(e).__name__}: {e}', 'input': None, 'observed': str(e), 'expected': 'no exception'}); continue
+        n += 1; dist['path/' + op] = dist.get('path/' + op, 0) + 1
+        if abs(L1 - want) > 1e-6 * max(1.0, want):
+            fails.append({'class': 'C04-path', 'what': f'a path of {len(segs)} segments sharing their nodes: length {L0!r} became {L1!r} after path.{op} (expected {want!r})', 'input': None,
+                          'observed': L1, 'expected': want})
     # path-level stale state: asking must not change later answers, and an in-place edit of a segment through the path's own
     # segment list (or of its Point objects) must be seen by the next query
     import gen as _gq
